@@ -16,6 +16,7 @@ import (
 	"encoding/hex"
 	"encoding/json"
 	"fmt"
+	"regexp"
 	"sort"
 	"strings"
 
@@ -126,7 +127,10 @@ func snapRun(session flows.Session, r flows.Run, redact bool, tree *node) *runSn
 type interner struct {
 	names   map[string]string
 	pending []string
+	shard   int
 }
+
+var staleRef = regexp.MustCompile(`\bs(\d+)_\d+\b`)
 
 var strtab *interner
 
@@ -137,7 +141,7 @@ func coqStr(s string) string {
 	if n, ok := strtab.names[s]; ok {
 		return n
 	}
-	n := fmt.Sprintf("s%d", len(strtab.names))
+	n := fmt.Sprintf("s%d_%d", strtab.shard, len(strtab.names))
 	strtab.names[s] = n
 	strtab.pending = append(strtab.pending, fmt.Sprintf("Definition %s : string := %s.", n, coqLit(s)))
 	return n
@@ -407,6 +411,12 @@ func (e *emitter) open() {
 func (e *emitter) add(term string, input any, impl any) {
 	e.open()
 	nm := fmt.Sprintf("c%d", len(e.names))
+	// a term rendered before the previous add (i.e. against the string table of another file) is a harness bug
+	for _, m := range staleRef.FindAllStringSubmatch(term, -1) {
+		if m[1] != fmt.Sprint(e.shard) {
+			panic("c19 emitter: term refers to the string table of shard " + m[1] + " while writing shard " + fmt.Sprint(e.shard))
+		}
+	}
 	for _, d := range strtab.pending {
 		e.file.Add(d)
 		e.bytes += len(d)
@@ -431,7 +441,7 @@ func (e *emitter) flush() {
 	e.file = nil
 	e.bytes = 0
 	e.shard++
-	strtab = &interner{names: map[string]string{}} // names are per file
+	strtab = &interner{names: map[string]string{}, shard: e.shard} // names are per file
 }
 
 // addContext emits one case per run of the session at this observation point
